@@ -23,7 +23,7 @@ func cmdConformance() int {
 	os.MkdirAll(dir, 0o755)
 	steps := [][]string{
 		{"go", "build", "-o", filepath.Join(dir, "litmus-real"), "./conformance/cmd/litmus-real"},
-		{filepath.Join(b.dir, "gomc-instr"), "-repo", verifDir, "-out", filepath.Join(dir, "ov"), "./conformance/litmus"},
+		{filepath.Join(b.dir, "gomc-instr"), "-repo", verifDir, "-out", filepath.Join(dir, "ov"), "./conformance/litmus"}, // loads a verif package: uses the (alternative) modfile
 		{"go", "build", "-tags", "gomc", "-overlay", filepath.Join(dir, "ov", "overlay.json"), "-o", filepath.Join(dir, "litmus-mc"), "./conformance/cmd/litmus-mc"},
 	}
 	for _, st := range steps {
